@@ -97,7 +97,7 @@ def tsv_rows(data):
 def run(chk):
     chk.prove(models=["Model/DataFile"])
     rng = chk.rng
-    n = 120 if chk.tier == "quick" else 1200
+    n = 300 if chk.tier == "quick" else 1500
     exprs, checks = [], []
     nsessions = 0
     for i in range(n):
